@@ -191,10 +191,10 @@ CHECKS['C14'] = dict(
         'concurrency limit, and not after an exception has surfaced; a put that was reported as rejected was not processed; wait_for_all returns only when no body runs '
         'and, in a loss-less graph, everything offered to every body node has been processed. Real graphs (three-node function chains with unlimited / serial / limit-2 / '
         'lightweight / rejecting nodes, broadcast fan-out with a second external source, a throwing body followed by a second wait and graph::reset, an input_node '
-        'source, an async_node completed through its gateway from a thread outside the arena under reserve_wait / release_wait, a limiter feedback cycle, reservations released on buffering nodes with and without an accepting push successor, a reserving join) are built on '
+        'source, an async_node completed through its gateway from a thread outside the arena under reserve_wait / release_wait, a limiter feedback cycle, a multifunction_node (limit 2 / serial rejecting) that forwards to two output ports, reservations released on buffering nodes with and without an accepting push successor, a reserving join) are built on '
         'logical threads of an all-reserved arena - 2-3 external putters plus one thread that executes graph tasks from the start - and run under seeded random and PCT-style priority cooperative '
         'schedules over every atomic of the graph and the scheduler; the body / put / wait events are validated by TLC (TraceFlow).',
-   note='topologies are a fixed catalogue (not randomised); schedules sampled; multifunction and continue nodes are not driven; no protocol model of function_input / edge switching yet (trace validation only)',
+   note='topologies are a fixed catalogue (not randomised); schedules sampled; continue nodes are not driven; no protocol model of function_input / edge switching yet (trace validation only)',
    technique='TLA+ abstract specification + TLC trace validation of recorded executions of real flow graphs under a cooperative scheduler',
    design='4 (C14)')
 CHECKS['C15'] = dict(
